@@ -31,9 +31,10 @@ ASSUMPTIONS = [
 def cases(draw, name, max_len):
     case = draw(base_case(name, max_len=max_len))
     for src in case["srcs"]:
-        src["fl"] = draw(st.sampled_from(["list", "iter", "agen", "list", "iter", "agen", "tuple", "tuplesub"]))
+        src["fl"] = draw(st.sampled_from(["list", "iter", "agen", "list", "iter", "agen", "tuple", "tuplesub", "seq",
+                                           "reiter", "areiter", "aproxy"]))
     for spec in case["fns"].values():
-        spec["fl"] = draw(st.sampled_from(["def", "async"]))
+        spec["fl"] = draw(st.sampled_from(["def", "async", "def", "async", "eqobj", "unhashobj", "aeqobj"]))
     return case
 
 
@@ -42,9 +43,10 @@ def cases_large(draw, name):
     """inputs of 12-30 items: heap selection with real replacements, long runs of ties"""
     case = draw(base_case(name, max_len=30, min_len=12))
     for src in case["srcs"]:
-        src["fl"] = draw(st.sampled_from(["list", "iter", "agen", "list", "iter", "agen", "tuple", "tuplesub"]))
+        src["fl"] = draw(st.sampled_from(["list", "iter", "agen", "list", "iter", "agen", "tuple", "tuplesub", "seq",
+                                           "reiter", "areiter", "aproxy"]))
     for spec in case["fns"].values():
-        spec["fl"] = draw(st.sampled_from(["def", "async"]))
+        spec["fl"] = draw(st.sampled_from(["def", "async", "def", "async", "eqobj", "unhashobj", "aeqobj"]))
     return case
 
 
